@@ -34,9 +34,11 @@ META = {
     "phases": [{"name": "main", "flavour": "P", "shards": 16}],
     "gates": {
         "quick": {"evaluations": 80000, "accepted": 10000, "rejected": 30000, "converted": 1500,
-                  "passthrough_seen": 50, "no_effect_checked": 30000},
+                  "passthrough_seen": 50, "no_effect_checked": 30000, "families": 12,
+                  "family_judgements": 10000},
         "thorough": {"evaluations": 1000000, "accepted": 100000, "rejected": 400000,
-                     "converted": 15000, "passthrough_seen": 500, "no_effect_checked": 400000},
+                     "converted": 15000, "passthrough_seen": 500, "no_effect_checked": 400000,
+                     "families": 12, "family_judgements": 10000},
     },
     "assumptions": [
         "vf/reference.py (about 300 lines of per-type predicates written from the docstrings and "
@@ -146,6 +148,18 @@ def atomic_specs():
         rf.ref_prefixlist(["yes", "no", "yellow"]))
     add("PrefixList2", "PrefixList", lambda: PrefixList(["alpha", "al", "beta"]),
         rf.ref_prefixlist(["alpha", "al", "beta"]))
+    # differently configured traits of one type living in one process (judged interleaved by the
+    # family cases below): the same string is an exact member here, a unique prefix there,
+    # ambiguous or foreign elsewhere
+    add("PrefixList3", "PrefixList", lambda: PrefixList(["yellow", "never", "albatross", "b"]),
+        rf.ref_prefixlist(["yellow", "never", "albatross", "b"]))
+    add("PrefixList4", "PrefixList", lambda: PrefixList(["apple", "cherry"]),
+        rf.ref_prefixlist(["apple", "cherry"]))
+    add("PrefixMap2", "PrefixMap", lambda: PrefixMap({"yellow": 1, "never": 0, "albatross": 3, "b": 4}),
+        rf.ref_prefixmap({"yellow": 1, "never": 0, "albatross": 3, "b": 4}))
+    add("PrefixMap3", "PrefixMap", lambda: PrefixMap({"apple": 1, "cherry": 2}),
+        rf.ref_prefixmap({"apple": 1, "cherry": 2}))
+    add("Map2", "Map", lambda: Map({"y": 1, "n": 0, 2: 2}), rf.ref_map({"y": 1, "n": 0, 2: 2}))
     add("Map", "Map", lambda: Map({"yes": 1, "no": 0, 1: 2}), rf.ref_map({"yes": 1, "no": 0, 1: 2}))
     add("PrefixMap", "PrefixMap", lambda: PrefixMap({"yes": 1, "no": 0, "yellow": 3}),
         rf.ref_prefixmap({"yes": 1, "no": 0, "yellow": 3}))
@@ -461,3 +475,46 @@ def run(ctx):
                 ctx.sample({"spec": name, "values": len(vals), "routes": 3})
         finally:
             ctx.end()
+    # ---- families: differently configured traits of ONE type, alive in one process and fed the
+    # same values interleaved (value-major, member order alternating), so that anything a trait
+    # type remembers beyond its own instance (a class-level cache, a shared table, a lazily
+    # installed validator) meets a configuration it is wrong for
+    groups = {}
+    for nm in atoms:
+        kind, thunk, ref = atoms[nm]
+        groups.setdefault(kind, []).append((nm, thunk, ref))
+    fi = 0
+    for kind in sorted(groups):
+        members = groups[kind]
+        if len(members) < 2:
+            continue
+        for c0 in range(0, len(members), 6):
+            chunk = members[c0:c0 + 6]
+            if len(chunk) < 2:
+                chunk = members[-2:]
+            fi += 1
+            if not ctx.mine(fi):
+                continue
+            if not ctx.begin("family:%s:%d" % (kind, c0)):
+                continue
+            try:
+                live = []
+                for j, (nm, thunk, ref) in enumerate(chunk):
+                    try:
+                        made = thunk()
+                        K = made if isinstance(made, type) else MetaHasTraits(
+                            "F%d_%d" % (fi, j), (HasTraits,), {"x": made, "other": Int(3)})
+                    except Exception:
+                        continue
+                    live.append([nm, K, ref, 0])
+                ctx.count("families")
+                vals = lattice(extra_floats=(-1.5,))
+                for k, (vid, vclass, v) in enumerate(vals):
+                    for m in (live if k % 2 == 0 else live[::-1]):
+                        if m[3] >= 6:
+                            continue
+                        ctx.count("family_judgements")
+                        if judge(ctx, m[0], kind, m[1], m[2], vid, vclass, v):
+                            m[3] += 1
+            finally:
+                ctx.end()
